@@ -26,6 +26,7 @@ def r1_emitters(ctx) -> None:
     ]
     for q, chain in table:
         c, m = prog.method(q)
+        m = ctx.cfn(q)       # (canonical: a private helper shared with the envelope writer is seen through)
         rets = [s for s in ast.walk(m) if isinstance(s, ast.Return) and s.value is not None]
         ok = len(rets) == 1
         if ok:
